@@ -230,13 +230,14 @@ var ErrInjected = errors.New("injected connection failure")
 //	WriteGate       : if non-nil, the failing Write first parks until the gate is closed.
 type Fault struct {
 	net.Conn
-	ReadFailAt   int
-	ReadErr      error
-	WriteFailAt  int
-	WriteErr     error
-	WritePartial int
-	WriteGate    chan struct{}
-	WriteParked  chan struct{} // closed when the failing write has parked
+	ReadFailAt    int
+	ReadErr       error
+	WriteFailAt   int
+	WriteErr      error
+	WritePartial  int
+	WriteGate     chan struct{}
+	WriteParked   chan struct{} // closed when the failing write has parked
+	WriteFailOnce bool          // only the WriteFailAt-th write fails; later writes pass
 
 	mu       sync.Mutex
 	inBytes  int
@@ -294,7 +295,7 @@ func (f *Fault) Read(p []byte) (int, error) {
 
 func (f *Fault) Write(p []byte) (int, error) {
 	f.mu.Lock()
-	if f.wfailed {
+	if f.wfailed && !f.WriteFailOnce {
 		f.mu.Unlock()
 		return 0, f.WriteErr
 	}
